@@ -214,15 +214,9 @@ impl Marshal for Variant<'_, '_> {
         &self,
         ctx: &mut crate::wire::marshal::MarshalContext,
     ) -> Result<(), crate::wire::errors::MarshalError> {
-        let mut sig = String::new();
-        self.sig.to_str(&mut sig);
-        if sig.len() > 255 {
-            let sig_err = crate::signature::Error::SignatureTooLong;
-            return Err(sig_err.into());
-        }
-        debug_assert!(crate::params::validation::validate_signature(&sig).is_ok());
-        crate::wire::util::write_signature(&sig, ctx.buf);
-        crate::wire::marshal::container::marshal_param(&self.value, ctx)
+        // same path (and same checks) as a variant inside a Param tree: the signature has to be valid and has to
+        // be the type of the value
+        crate::wire::marshal::container::marshal_variant_param(self, ctx)
     }
 }
 impl<'buf, 'fds> Unmarshal<'buf, 'fds> for Variant<'buf, 'fds> {
